@@ -37,7 +37,7 @@ pub fn run_history(case: &HistoryCase, monitors: &mut [&mut dyn Monitor], l: &mu
         match &r.did {
             Did::Ok => {
                 stats.ops_ok += 1;
-                match op {
+                match op.effective() {
                     Op::Swap { .. } | Op::SwapBack { .. } => {
                         stats.swaps_ok += 1;
                         if let Some(o) = &r.outcome {
@@ -63,8 +63,11 @@ pub fn run_history(case: &HistoryCase, monitors: &mut [&mut dyn Monitor], l: &mu
             }
             Did::Vacuous => stats.ops_vacuous += 1,
         }
+        if let Op::Skewed { .. } = op {
+            l.count(if r.did == Did::Ok { "skewed_tick_array_op_accepted" } else { "skewed_tick_array_op_refused" });
+        }
         for m in monitors.iter_mut() {
-            m.after(&h, &pre, &post, op, &r, l).map_err(|e| format!("after op #{i} {op:?}: {e}"))?;
+            m.after(&h, &pre, &post, op.effective(), &r, l).map_err(|e| format!("after op #{i} {op:?}: {e}"))?;
         }
         pre = post;
     }
@@ -94,7 +97,7 @@ pub fn count_stats(s: &HistStats, l: &mut Local) {
 }
 
 pub fn op_name(op: &Op) -> &'static str {
-    match op {
+    match op.effective() {
         Op::Open { .. } => "open",
         Op::Increase { variant: IncVariant::ByAmounts { .. }, .. } => "increase_by_amounts",
         Op::Increase { .. } => "increase",
@@ -115,5 +118,6 @@ pub fn op_name(op: &Op) -> &'static str {
         Op::FundRewardVault { .. } => "fund_reward_vault",
         Op::SetTransferFee { .. } => "set_transfer_fee",
         Op::AdvanceEpoch(_) => "advance_epoch",
+        Op::Skewed { .. } => unreachable!(),
     }
 }
